@@ -1,27 +1,31 @@
-//! Debug aid (not a check): print IR before/after join planning and answers under jp on/off.
-use inputlayer::{IQLEngine, JoinPlanner, OptimizationConfig, Tuple, Value};
+use hnsw_rs::prelude::*;
+use verif_harness::entropy::*;
 fn main() {
-    let a: Vec<String> = std::env::args().collect();
-    let text = a[1].replace("\\n", "\n");
-    let edb: serde_json::Value = serde_json::from_str(&a[2]).unwrap();
-    let load = |e: &mut IQLEngine| {
-        for (k, rows) in edb.as_object().unwrap() {
-            let ts: Vec<Tuple> = rows.as_array().unwrap().iter().map(|r| Tuple::new(r.as_array().unwrap().iter().map(|x| Value::Int64(x.as_i64().unwrap())).collect())).collect();
-            if !ts.is_empty() { e.add_tuples(k, ts); }
+    let menu = seed_menu(8, 0.2, 4, 12, 5);
+    let pts: Vec<Vec<f32>> = vec![vec![1.0, 1.0], vec![1.0, 1.0], vec![1.0, 1.0], vec![1.0, 1.0], vec![2.0, -1.0]];
+    for (name, seed) in [("benign", &menu.benign), ("sp4", &menu.special[4]), ("sp0", &menu.special[0]), ("sp2", &menu.special[2])] {
+        assert!(plan(seed, None));
+        let mut h: Hnsw<f32, DistL2> = Hnsw::new(8, pts.len(), 4, 50, DistL2);
+        h.set_keeping_pruned(true);
+        h.set_extend_candidates(true);
+        h.modify_level_scale(0.2);
+        for (i, p) in pts.iter().enumerate() {
+            h.insert((p, i));
         }
-    };
-    let mut e = IQLEngine::new();
-    load(&mut e);
-    e.parse(&text).unwrap();
-    e.build_ir(false).unwrap();
-    for ir in e.ir_nodes() {
-        println!("IR: {ir:#?}");
-        println!("PLANNED: {:#?}", JoinPlanner::new().plan_joins(ir.clone()));
-    }
-    for m in 0..32u32 {
-        let c = OptimizationConfig { enable_join_planning: m & 1 != 0, enable_sip_rewriting: m & 2 != 0, enable_subplan_sharing: m & 4 != 0, enable_boolean_specialization: m & 8 != 0, enable_magic_sets: m & 16 != 0 };
-        let mut e = IQLEngine::with_config(c.clone());
-        load(&mut e);
-        println!("jp={} sip={} share={} bool={} magic={}: {:?}", c.enable_join_planning as u8, c.enable_sip_rewriting as u8, c.enable_subplan_sharing as u8, c.enable_boolean_specialization as u8, c.enable_magic_sets as u8, e.execute_tuples(&text).map(|v| v.iter().map(|t| t.to_string()).collect::<Vec<_>>()));
+        clear();
+        let r = h.search(&[-1.0, -1.0], 5, 16);
+        eprintln!("{name}: levels {:?} maxlevel {} search -> {:?}", levels(seed, 8, 0.2, 4, 5), h.get_max_level_observed(), r.iter().map(|n| (n.d_id, n.distance)).collect::<Vec<_>>());
+        let pts2: Vec<Vec<f32>> = vec![vec![0.0, 0.0], vec![1.0, 0.0], vec![0.0, 1.0], vec![3.0, 3.0], vec![2.0, -1.0]];
+        assert!(plan(seed, None));
+        let mut h: Hnsw<f32, DistL2> = Hnsw::new(8, pts2.len(), 4, 50, DistL2);
+        h.set_keeping_pruned(true);
+        h.set_extend_candidates(true);
+        h.modify_level_scale(0.2);
+        for (i, p) in pts2.iter().enumerate() {
+            h.insert((p, i));
+        }
+        clear();
+        let r = h.search(&[-1.0, -1.0], 5, 16);
+        eprintln!("{name} distinct points: search -> {:?}", r.iter().map(|n| (n.d_id, n.distance)).collect::<Vec<_>>());
     }
 }
